@@ -237,10 +237,18 @@ def gen_solid(rng, k):
             return g._emit(("bin", "sub", g._emit(("un", "abs", ax)), c(h)))
         return g._emit(("bin", "max", g._emit(("bin", "max", side(X, a), side(Y, b))), side(Z, cc)))
 
+    nprim = [0]
+
     def prim():
+        # every primitive gets its own (dyadic) size offset: two boxes never share a face plane, so a difference
+        # never leaves a zero-thickness sheet (a field that is exactly 0 on a set with interior is not a solid's
+        # boundary; the DC mesher crashes on such an oracle tree in DCTree::intersection, see DESIGN 12.3)
+        n = nprim[0]
+        nprim[0] += 1
         if rng.random() < 0.5:
-            return sphere(rng.choice([0.5, 0.75, 1.0]), rng.choice([0, 0.25, -0.25]), rng.choice([0, 0.25]), 0.0)
-        return box(rng.choice([0.5, 0.75, 1.0]), rng.choice([0.5, 0.75]), rng.choice([0.5, 1.0]))
+            return sphere(rng.choice([0.5, 0.75, 1.0]) + 0.046875 * n, rng.choice([0, 0.25, -0.25]), rng.choice([0, 0.25]), 0.0)
+        return box(rng.choice([0.5, 0.75, 1.0]) + 0.046875 * n, rng.choice([0.5, 0.75]) + 0.03125 * n,
+                   rng.choice([0.5, 1.0]) + 0.0234375 * n)
 
     e = prim()
     for _ in range(rng.randint(0, 2)):
@@ -572,6 +580,8 @@ def run(rep, tier, seed, replay=None):
     corpus = []
     if os.path.isdir(corpus_dir):
         for f in sorted(os.listdir(corpus_dir)):
+            if f.startswith("_"):          # kept for reference, not replayed
+                continue
             corpus += [l.rstrip("\n") for l in open(os.path.join(corpus_dir, f))]
     work = os.path.join(common.BUILD, "work")
     os.makedirs(work, exist_ok=True)
